@@ -157,18 +157,24 @@ fn main() {
         "scale-times" => {
             // ad-hoc: time every scale input under one property's oracle
             let prop: &'static str = Box::leak(args.get(2).cloned().unwrap_or_else(|| "C02".into()).into_boxed_str());
-            let items = props::scale_inputs(spaces::Tier::Quick);
+            let tier = if args.get(3).map(String::as_str) == Some("thorough") { spaces::Tier::Thorough } else { spaces::Tier::Quick };
+            let items = props::scale_inputs(tier);
             for it in &items {
                 let mut buf = String::new();
                 props::make_scale_pub(it, &mut buf);
                 let t0 = std::time::Instant::now();
                 let oc = view::run_lexer(&buf);
                 let t1 = t0.elapsed().as_secs_f64();
+                let t0 = std::time::Instant::now();
                 drop(oc);
+                let td = t0.elapsed().as_secs_f64();
+                if td > 0.2 {
+                    println!("  drop of the result took {td:.2}s");
+                }
                 let t0 = std::time::Instant::now();
                 let _ = props::check_one(prop, &buf, None);
                 let t2 = t0.elapsed().as_secs_f64();
-                if t2 > 0.2 {
+                if t2 > 1.0 {
                     println!("{:?} x{} bytes={} lex={:.2}s lex+oracle={:.2}s", it.0, it.1, buf.len(), t1, t2);
                 }
             }
